@@ -147,6 +147,28 @@ func (cs *c13sim) txOn(n *Node, t *Tape, base *Image) (TxResult, string) {
 		}
 		prog := GenWalProgram(t, cs.ref.N(), 25)
 		prog.Outcome = OutCommit
+		if t.Chance(1, 3) {
+			// while this connection has published its commit and still holds the
+			// write lock (no transaction file exists yet), another connection on
+			// the same node asks for the checkpoint lock: it must be refused, on
+			// the primary and on a replica that writes under the halt lock alike
+			c.BeforeWalUnlock = func() {
+				b := n.NewConn(cs.name, cs.jmode, cs.pageSize)
+				if b.Open() != 0 {
+					return
+				}
+				defer b.Close()
+				if b.LockShared() != 0 || b.WalOpen() != 0 {
+					return
+				}
+				if e := b.shmLock(fuse.LockWrite, walCkptLock, 1); e == 0 {
+					b.shmLock(fuse.LockUnlock, walCkptLock, 1)
+					cs.r.Failf("c13.ckpt-lock-during-write", "%s: a second connection was granted the exclusive checkpoint lock while another connection holds the write lock with a committed transaction that has not been captured yet", n.Name)
+				} else {
+					cs.r.Count("c13.ckpt-lock-refused-during-write")
+				}
+			}
+		}
 		return c.WalWriteTx(prog, cs.ref), fmt.Sprintf("wal %d->%d", cs.ref.N(), prog.NewSize)
 	}
 	prog := GenProgram(t, cs.ref.N(), 25, LockPgno(cs.pageSize))
